@@ -53,6 +53,9 @@ type Range struct {
 	Ext    []Param  `json:"ext,omitempty"`
 	WS     []string `json:"ws,omitempty"` // optional whitespace, consumed in order by the renderer
 	NL     bool     `json:"nl,omitempty"` // this element starts a new header line
+	// Empty is the number of empty list elements (bare commas) rendered in front of this element. RFC 7230 section 7
+	// obliges recipients to ignore them; the generators do not draw them (see genEmptyElements), saved cases may.
+	Empty int `json:"empty,omitempty"`
 }
 
 // Case is a structured negotiation case: no header at all when Ranges is empty.
@@ -245,14 +248,18 @@ func Lines(ranges []Range) []string {
 	cur := ""
 	for i, r := range ranges {
 		before, after, text := r.render()
+		empties := ""
+		if r.Empty > 0 && r.Empty <= 8 {
+			empties = strings.Repeat(",", r.Empty)
+		}
 		switch {
 		case i == 0:
-			cur = text
+			cur = empties + text
 		case r.NL:
 			lines = append(lines, cur)
-			cur = text
+			cur = empties + text
 		default:
-			cur += before + "," + after + text
+			cur += before + "," + empties + after + text
 		}
 	}
 	if len(ranges) > 0 {
